@@ -322,6 +322,7 @@ func init() {
 			return Str{Kind: 1, Atom: App(fmt.Sprintf("hexenc/%d", len(ts)), BVS(64), ts...)}
 		}),
 	}
+	registerCodecs()
 }
 
 // baWord packs a fixed byte array into one bit-vector (big endian).
